@@ -1239,7 +1239,8 @@ class C16(WMode):
 
     def draw(self, rng):
         fam = rng.choice(["linear", "log16", "log8", "hh", "hll"])
-        cfg = draw_config(rng, fam, wmax=9, nodes_max=3, events=(12, 45), run_index=getattr(self, "run_index", None), thr_shared=True)
+        cfg = draw_config(rng, fam, wmax=9, nodes_max=3, events=(12, 45), run_index=getattr(self, "run_index", None), thr_shared=True,
+                          thr_dims=("shm_multiple", "cells", "mult", "list_len"), thr_every=6)
         cfg["shared"] = True
         cfg["shadow"] = True
         cfg["weights"] = hist_weights(work=50, views=True)
@@ -1338,7 +1339,7 @@ class C18Checker(Checker):
                 w.probes["lone_hh_key_checked"] += 1
 
 
-CTOR_MC = [256, 300, 1000, 5000, 70000, 10 ** 6, U32MAX, 1 << 40, 1 << 63]
+CTOR_MC = [256, 300, 500, 1000, 5000, 70000, 10 ** 6, U32MAX, 1 << 40, 1 << 63]
 
 
 class C18(WMode):
@@ -1384,7 +1385,9 @@ class C18(WMode):
             nr = mx - rng.randrange(1, 60)
         else:
             nr = rng.randrange(0, mx)
-        if mc <= nr + 1:
+        if mc <= nr + 1 and rng.random() < 0.5:
+            # half of the time keep max_count at or below num_reserved (the grid of the statement
+            # ranges over both independently): such a configuration must raise ValueError
             mc = nr + 2 + rng.randrange(0, 1000)
         return {"op": "ctor", "fam": fam, "max_count": mc, "nr": nr, "factory": rng.random() < 0.3}
 
